@@ -76,6 +76,10 @@ class IndexApi:
             return R('KeyError')
         except (TypeError, ValueError) as exc:
             return R(type(exc).__name__)
+        except MachineryError:
+            raise
+        except Exception as exc:        # any other failure of the library is a result the specification judges
+            return R(type(exc).__name__)
         raise MachineryError('unknown index op %r' % name)
 
 
@@ -104,6 +108,9 @@ def run_seq(ops, impl='diskcache', via='Index', seed=0, tid=1):
             extra.append(dj)
         else:
             x = diskcache.Index(os.path.join(root, 'i'))
+        if impl != 'stdlib':
+            # an Index never loses items to eviction, whatever the size limit of its cache
+            x.cache.reset('size_limit', 150 * 1024)
         ev = []
         for op in ops:
             name, a = op['op'], dict(op.get('a', {}))
@@ -123,8 +130,20 @@ def run_seq(ops, impl='diskcache', via='Index', seed=0, tid=1):
                     cur = pairs_of(x, vm)
                     if a.pop('shuffle', 0):
                         cur = cur[::-1]
-                    if a.pop('mutate', False) and cur:
-                        cur = cur[:-1] if len(cur) % 2 else [[cur[0][0], 3 if cur[0][1] != 3 else 2]] + cur[1:]
+                    mut = a.pop('mutate', False)
+                    if mut and cur:
+                        kind = len(ev) % 3
+                        if kind == 0:
+                            cur = cur[:-1]
+                        elif kind == 1:
+                            cur = [[cur[0][0], 3 if cur[0][1] != 3 else 2]] + cur[1:]
+                        else:
+                            # same length, one key replaced by a key that is not in the index
+                            free = [k for k in PYKEYS if k not in [c[0] for c in cur]]
+                            none_at = [i for i, c in enumerate(cur) if c[1] == 102000]
+                            if free:
+                                i = none_at[0] if none_at else 0
+                                cur = cur[:i] + [[free[0], 7]] + cur[i + 1:]
                     a['other'] = cur
                 ret = api.call(x, name, a)
             ev.append({'op': name, 'a': a, 'ret': ret, 'pairs': pairs_of(x, vm)})
@@ -139,7 +158,7 @@ def run_seq(ops, impl='diskcache', via='Index', seed=0, tid=1):
         envctl.rm(root)
 
 
-VALS = [1, 2, 3, 100001, 101000, 200000 + 40 * 100 + 1, 200000 + 36 * 100 + 2, 300000 + 36 * 100 + 3]
+VALS = [1, 2, 3, 100001, 101000, 102000, 102000, 200000 + 40 * 100 + 1, 200000 + 36 * 100 + 2, 300000 + 36 * 100 + 3]
 
 
 def random_ops(rng, n):
